@@ -3,8 +3,8 @@
 Three kinds of cases
   base : one built-in model, one abscissa, one parameter vector    -> c13.val / c13.jac / c13.der
   tree : a composition (sum, independent-offset, inversion)        -> c13.tree names / jac / der
-  fit  : 1-2 models x 1-3 data sets with renamed / shared / pinned parameters
-                                                                    -> c13.fit code / c13.fit fixed
+  fit  : 1-2 models x 1-3 data sets with renamed / shared / pinned parameters, data sets sharing a condition in
+         every order of appearance (AAB, ABA, ABB ...)              -> c13.fit code / c13.fit fixed
 The oracle differentiates numerically (Richardson-extrapolated central differences):
   base/tree : a plain-Python evaluation of the composition by NAMES (sum = sum of the parts, offset = shift
               of the abscissa, inverse = bisection of the forward part) over the leaf model functions,
@@ -1223,85 +1223,199 @@ def valid_everywhere(t, x, pd, base_ok=False):
         return False
 
 
-def gen_fit_case(rng, allow_dups=True):
+def condition_patterns(n):
+    """every way n data sets of one model can share simulation conditions, as restricted-growth strings (the condition
+    label of each data set, labels numbered by first occurrence): n = 3 -> 000 001 010 011 012.  The code groups data
+    sets by condition, so the patterns in which a label comes back after another one (010) are the layouts where the
+    order the data sets were added in differs from the order they are simulated in."""
+    out = [[0]]
+    for _ in range(n - 1):
+        out = [q + [k] for q in out for k in range(max(q) + 2)]
+    return out
+
+
+def cond_key(pn, trans):
+    tr = dict((n, v) for n, v in trans)
+    return "|".join(str(tr.get(n, n)) for n in pn)
+
+
+def gen_trans(rng, pn, params, values, tag, allow_dups=True):
+    """a random parameter transformation (of one data set, or of one condition shared by several): each model
+    parameter is kept, renamed to a fresh name, renamed to a name shared with others, pinned to a number, or merged
+    with another parameter of the same physical kind"""
+    trans = []
+    for n in pn:
+        c = rng.randint(0, 11)
+        if n == "kT" and c < 9:
+            continue
+        if c <= 5:
+            continue
+        if c == 6:  # fresh name for this data set / condition
+            new = f"{n}_{tag}"
+        elif c == 7:  # a name shared with other data sets
+            new = f"{n}_s"
+        elif c == 8:  # pinned to a number
+            trans.append([n, float(params[n] * rng.uniform(0.9, 1.1)) if params[n] != 0 else 0.01])
+            continue
+        elif c == 9 and allow_dups:  # merged with another parameter of the same model of the same physical kind
+            same = [o for o in pn if o != n and o.split("/")[-1] == n.split("/")[-1]]
+            if not same:
+                continue
+            new = rng.choice(same)
+        else:
+            continue
+        trans.append([n, new])
+        values.setdefault(new, float(params[n] * rng.uniform(0.95, 1.05)))
+    return trans
+
+
+def gen_fit_data(rng, t, pn, params, values, trans, npts):
+    """one data set: abscissas valid for the tree at the (local) parameter values of this data set, ordinates near
+    the model value"""
+    local = dict(params)
+    for n, v in trans:
+        local[n] = values[v] if isinstance(v, str) else v
+    tr = dict((n, v) for n, v in trans)
+    for n in pn:
+        if n not in tr:
+            local[n] = values[n]
+    xs = []
+    for _ in range(npts):
+        for _ in range(10):
+            x = pick_x(rng, t, local)
+            if x is not None and math.isfinite(x) and valid_everywhere(t, x, local):
+                xs.append(float(x))
+                break
+    if not xs:
+        return None
+    ys = []
+    for x in xs:
+        try:
+            y = spec_eval(t, x, local)
+        except Exception:
+            y = 1.0
+        ys.append(float(y * rng.uniform(0.9, 1.1)) if math.isfinite(y) else 1.0)
+    return {"xs": xs, "ys": ys, "trans": [list(e) for e in trans]}
+
+
+def gen_fit_tree(rng, mi_, tree=None):
+    """(tree, a parameter point of it) of the mi_-th model of a fit"""
+    indep = rng.choice(["f", "d"])
+    for _ in range(30):
+        cnt = [2 * mi_] if mi_ else [0]
+        t = tree or gen_tree(rng, indep, rng.choice([0, 1, 1, 2]), cnt, allow_inv=False)
+        if t[0] == "base" and t[1].startswith("offset"):
+            continue
+        tc = gen_tree_case(rng, tree=t)
+        if tc is None:
+            continue
+        if not valid_everywhere(t, tc["x"], tc["params"]):
+            continue
+        return t, tc
+    return None, None
+
+
+def gen_fit_case(rng, allow_dups=True, by_pattern=None):
+    """a random fit layout.  Half of the cases draw one transformation per DATA SET independently (data sets then
+    almost never share a condition unless both are untransformed); the other half first draw how the data sets share
+    conditions (a pattern of `condition_patterns`, all equally likely) and then one transformation per CONDITION, so
+    that shared conditions in every order of appearance (AAB, ABA, ABB ...) are produced on purpose"""
     nm = rng.choice([1, 1, 1, 2])
     models = []
     values = {}
-    used = set()
     for mi_ in range(nm):
-        indep = rng.choice(["f", "d"])
-        for _ in range(30):
-            cnt = [2 * mi_] if mi_ else [0]
-            t = gen_tree(rng, indep, rng.choice([0, 1, 1, 2]), cnt, allow_inv=False)
-            if t[0] == "base" and t[1].startswith("offset"):
-                continue
-            tc = gen_tree_case(rng, tree=t)
-            if tc is None:
-                continue
-            if not valid_everywhere(t, tc["x"], tc["params"]):
-                continue
-            break
-        else:
+        t, tc = gen_fit_tree(rng, mi_)
+        if t is None:
             return None
-        names = sorted(tc["params"].keys())
         pn = list(obj_of(t).parameter_names)
         for n, v in tc["params"].items():
             values.setdefault(n, v)
         nd = rng.choice([1, 2, 2, 3])
-        data = []
-        for di in range(nd):
-            trans = []
-            targets = set()
-            for n in pn:
-                c = rng.randint(0, 11)
-                if n == "kT" and c < 9:
-                    continue
-                if c <= 5:
-                    continue
-                if c == 6:  # fresh name for this data set
-                    new = f"{n}_{mi_}{di}"
-                elif c == 7:  # a name shared with other data sets
-                    new = f"{n}_s"
-                elif c == 8:  # pinned to a number
-                    trans.append([n, float(tc["params"][n] * rng.uniform(0.9, 1.1)) if tc["params"][n] != 0 else 0.01])
-                    continue
-                elif c == 9 and allow_dups:  # merged with another parameter of the same model of the same physical kind
-                    same = [o for o in pn if o != n and o.split("/")[-1] == n.split("/")[-1]]
-                    if not same:
-                        continue
-                    new = rng.choice(same)
-                else:
-                    continue
-                trans.append([n, new])
-                values.setdefault(new, float(tc["params"][n] * rng.uniform(0.95, 1.05)))
-            # abscissas valid for the tree at the (local) parameter values of this data set
-            xs = []
-            local = dict(tc["params"])
-            for n, v in trans:
-                local[n] = values[v] if isinstance(v, str) else v
-            # merged parameters take the value of their target
-            for n in pn:
-                tr = dict(trans)
-                if n not in tr:
-                    local[n] = values[n]
-            for _ in range(rng.randint(1, 3)):
-                for _ in range(10):
-                    x = pick_x(rng, t, local)
-                    if x is not None and math.isfinite(x) and valid_everywhere(t, x, local):
-                        xs.append(float(x))
+        if rng.chance(0.5) if by_pattern is None else by_pattern:
+            pattern = rng.choice(condition_patterns(nd))
+            per_label, keys = [], set()
+            for lab in range(max(pattern) + 1):
+                for attempt in range(30):
+                    tr = gen_trans(rng, pn, tc["params"], values, f"{mi_}c{lab}", allow_dups)
+                    if attempt == 29:  # make it differ from every other condition by a fresh name
+                        free = [n for n in pn if n not in dict((a, b) for a, b in tr)] or pn[:1]
+                        n = rng.choice(free)
+                        tr = [e for e in tr if e[0] != n] + [[n, f"{n}_{mi_}c{lab}"]]
+                        values.setdefault(f"{n}_{mi_}c{lab}", float(tc["params"][n] * rng.uniform(0.95, 1.05)))
+                    if cond_key(pn, tr) not in keys:
                         break
-            if not xs:
+                keys.add(cond_key(pn, tr))
+                per_label.append(tr)
+            all_trans = [per_label[lab] for lab in pattern]
+        else:
+            all_trans = [gen_trans(rng, pn, tc["params"], values, f"{mi_}{di}", allow_dups) for di in range(nd)]
+        data = []
+        for trans in all_trans:
+            d = gen_fit_data(rng, t, pn, tc["params"], values, trans, rng.randint(1, 3))
+            if d is None:
                 return None
-            ys = []
-            for x in xs:
-                try:
-                    y = spec_eval(t, x, local)
-                except Exception:
-                    y = 1.0
-                ys.append(float(y * rng.uniform(0.9, 1.1)) if math.isfinite(y) else 1.0)
-            data.append({"xs": xs, "ys": ys, "trans": trans})
+            data.append(d)
         models.append({"tree": t, "data": data})
     return {"op": "fit", "models": models, "values": values}
+
+
+# small scope of fit layouts: how the conditions of a pattern differ from each other
+#   (style of label 0, style of the labels >= 1): "id" = untransformed, "rename" = one parameter gets a name of its
+#   own, "pin" = one parameter is fixed to a number
+SCOPE_STYLES = [("id", "rename"), ("id", "pin"), ("rename", "rename")]
+
+
+def scope_trans(pn, params, values, lab, styles, tag):
+    style = styles[0] if lab == 0 else styles[1]
+    own = [n for n in pn if n != "kT"]
+    if style == "id":
+        return []
+    n = own[-1] if lab == 0 else own[(lab - 1) % max(len(own) - 1, 1)]
+    if style == "pin":
+        return [[n, float(params[n] * (1.0 + 0.03 * lab))]]
+    new = f"{n}_{tag}c{lab}"
+    values.setdefault(new, float(params[n] * (1.0 - 0.02 * (lab + 1))))
+    return [[n, new]]
+
+
+def scope_fit_case(rng, trees, patterns, styles, lengths):
+    """the fit whose i-th model is trees[i] with data sets sharing conditions as patterns[i] says; the data set added
+    j-th has lengths[j] points (counted over the whole fit, so that blocks of different sizes meet)"""
+    models, values = [], {}
+    j = 0
+    for mi_, (tree, pattern) in enumerate(zip(trees, patterns)):
+        t, tc = gen_fit_tree(rng, mi_, tree=tree)
+        if t is None:
+            return None
+        pn = list(obj_of(t).parameter_names)
+        for n, v in tc["params"].items():
+            values.setdefault(n, v)
+        data = []
+        for lab in pattern:
+            trans = scope_trans(pn, tc["params"], values, lab, styles, f"m{mi_}")
+            d = gen_fit_data(rng, t, pn, tc["params"], values, trans, lengths[j % len(lengths)])
+            j += 1
+            if d is None or len(d["xs"]) != lengths[(j - 1) % len(lengths)]:
+                return None
+            data.append(d)
+        models.append({"tree": t, "data": data})
+    return {"op": "fit", "models": models, "values": values}
+
+
+def pattern_of(m):
+    """the condition pattern of one model of a fit case, e.g. '010'"""
+    pn = list(obj_of(m["tree"]).parameter_names)
+    keys = [cond_key(pn, d["trans"]) for d in m["data"]]
+    order = []
+    for k in keys:
+        if k not in order:
+            order.append(k)
+    return "".join(str(order.index(k)) for k in keys)
+
+
+def noncontiguous(pat):
+    """a condition comes back after a different one: the data sets are not simulated in the order they were added"""
+    return any(pat[i] != pat[i - 1] and pat[i] in pat[: i - 1] for i in range(2, len(pat)))
 
 
 def has_dup(case):
@@ -1414,6 +1528,34 @@ def cases(tier, rng):
             c["stream"] = "small-scope"
             yield c
 
+    # ---- small scope of fit layouts: every way 1-3 data sets of a model can share conditions (in every order of
+    #      appearance), x how the conditions differ, x blocks of equal / different lengths; then two-model fits
+    rf = rng.fork("c13-fit-scope")
+    fit_trees = [["base", "odijk_d", "DNA"], ["add", ["base", "odijk_f", "DNA"], ["base", "offset_f", "o"]]]
+    if not quick:
+        fit_trees += [["base", "ms_f", "DNA"], ["add", ["off", ["base", "odijk_d", "DNA"]], ["base", "efjc_d", "ss"]]]
+    profiles = [[1, 1, 1], [2, 1, 3]] if quick else [[1, 1, 1], [2, 1, 3], [3, 2, 1], [1, 3, 1]]
+    layouts = []
+    for t in fit_trees:
+        for nd in (1, 2, 3):
+            for pat in condition_patterns(nd):
+                for styles in SCOPE_STYLES:
+                    if max(pat) == 0 and styles[0] == "id" and styles != SCOPE_STYLES[0]:
+                        continue  # a single untransformed condition: the style of the others does not matter
+                    for prof in profiles:
+                        layouts.append(([t], [pat], styles, prof))
+    two = [["base", "odijk_d", "DNA"], ["base", "odijk_f", "prot"]]
+    for pats in ([[0, 1, 0], [0, 1, 0]], [[0, 1], [0, 1, 0]], [[0, 1, 0], [0]], [[0, 0, 1], [0, 1, 1]]):
+        for styles in SCOPE_STYLES:
+            layouts.append((two, pats, styles, [2, 1, 3, 1, 2]))
+    for li, (ts, pats, styles, prof) in enumerate(layouts):
+        for attempt in range(5):
+            c = scope_fit_case(rf.fork(f"{li}.{attempt}"), ts, pats, styles, prof)
+            if c is not None:
+                c["stream"] = "small-scope"
+                yield c
+                break
+
     # ---- seeded random: base models over the property's box
     N = 700 if quick else 12000
     r = rng.fork("c13-base")
@@ -1470,7 +1612,8 @@ def cases(tier, rng):
 
 
 def extra_coverage(results):
-    kinds, branches, skipped, fit_layout = {}, {}, {}, {"datasets": {}, "models": {}, "dup_global_in_dataset": 0, "pinned": 0, "renamed": 0}
+    kinds, branches, skipped, fit_layout = {}, {}, {}, {"datasets": {}, "models": {}, "dup_global_in_dataset": 0, "pinned": 0, "renamed": 0,
+                                                "condition_patterns": {}, "shared_condition_not_contiguous": 0}
     tree_shapes = {"add": 0, "off": 0, "inv": 0}
     for r in results:
         c = r["case"]
@@ -1495,6 +1638,11 @@ def extra_coverage(results):
             fit_layout["models"][len(c["models"])] = fit_layout["models"].get(len(c["models"]), 0) + 1
             if has_dup(c):
                 fit_layout["dup_global_in_dataset"] += 1
+            pats = [pattern_of(m) for m in c["models"]]
+            for pat in pats:
+                fit_layout["condition_patterns"][pat] = fit_layout["condition_patterns"].get(pat, 0) + 1
+            if any(noncontiguous(pat) for pat in pats):
+                fit_layout["shared_condition_not_contiguous"] += 1
             for m in c["models"]:
                 for d in m["data"]:
                     for n, v in d["trans"]:
@@ -1520,7 +1668,11 @@ RULE = (
     "parameters +-10 %, L_c 0.3-30 um log-uniform, forces 0.05 pN .. 80 % of the validity limit, distances obtained "
     "from such forces; random compositions of depth <= 3 with up to 6 leaves; fit layouts with 1-2 models, 1-3 data "
     "sets each, 1-3 points, parameters renamed per data set / shared across data sets / merged inside a data set / "
-    "pinned to numbers) + an out-of-domain stream (zero, negative, NaN, infinite abscissas and parameters). "
+    "pinned to numbers; half of the layouts draw the condition-sharing pattern of the data sets first and one "
+    "transformation per condition) + small scope of fit layouts (every way 1-3 data sets of a model share conditions, "
+    "in every order of appearance: 0 00 01 000 001 010 011 012, x conditions differing by a renamed / a pinned "
+    "parameter, x data sets of equal / different lengths; two-model fits with such patterns in both models) "
+    "+ an out-of-domain stream (zero, negative, NaN, infinite abscissas and parameters). "
     "Non-trivial: base = a derivative was returned; tree = a genuine composition; fit = more than one data set or a "
     "transformation; raw cubic = always."
 )
